@@ -202,6 +202,55 @@ func samplingRules(c *Ctx) {
 		pk, fd := c.P.mustFunc("eth2/beacon/common", name)
 		info := pk.TypesInfo
 		var s samp
+		// the registry's own reading of the effective balance, or an unexported getter of the package that hands out
+		// nothing but that (every value it returns without an error is a call of EffectiveBalance)
+		getters := map[string]bool{"EffectiveBalance": true}
+		c.P.funcDecls(func(p2 *packages.Package, f2 *ast.FuncDecl) {
+			if p2 != pk || f2.Body == nil || f2.Recv != nil || f2.Name.IsExported() {
+				return
+			}
+			fdefs := singleDefs(info, f2.Body)
+			all, any := true, false
+			ast.Inspect(f2.Body, func(n ast.Node) bool {
+				if _, isLit := n.(*ast.FuncLit); isLit {
+					return false
+				}
+				r, ok := n.(*ast.ReturnStmt)
+				if !ok || len(r.Results) == 0 {
+					return true
+				}
+				if len(r.Results) >= 2 && !isNilExpr(info, r.Results[len(r.Results)-1]) {
+					return true // an error return
+				}
+				any = true
+				v := ast.Unparen(r.Results[0])
+				if id, ok := v.(*ast.Ident); ok {
+					if d, ok := fdefs[info.Uses[id]]; ok && d.rhs != nil {
+						v = ast.Unparen(d.rhs)
+					}
+				}
+				call, ok := v.(*ast.CallExpr)
+				if !ok {
+					all = false
+					return true
+				}
+				if f := calleeFunc(info, call); f == nil || f.Name() != "EffectiveBalance" {
+					all = false
+				}
+				return true
+			})
+			if any && all {
+				getters[f2.Name.Name] = true
+			}
+		})
+		fromRegistry := func(term string) bool {
+			for g := range getters {
+				if strings.HasPrefix(term, g+"(") {
+					return true
+				}
+			}
+			return false
+		}
 		for _, site := range allCmps["common."+name] {
 			if !strings.Contains(site.pr.String(), "MAX_EFFECTIVE_BALANCE") {
 				continue
@@ -244,7 +293,7 @@ func samplingRules(c *Ctx) {
 				s.why = "the candidate's balance is not weighed by MAX_RANDOM_BYTE (255): " + site.text
 			case p[maxTerm] != -1 || strings.Count(maxTerm, "*") != 1:
 				s.why = "MAX_EFFECTIVE_BALANCE is not multiplied by exactly the random byte: " + site.text
-			case !strings.HasPrefix(balTerm, "EffectiveBalance("):
+			case !fromRegistry(balTerm):
 				s.why = "the balance weighed is " + balTerm + ", not the candidate's effective balance read from the state's registry (a cached copy is stale once effective balances were updated in the same epoch transition): " + site.text
 			case rop != 0 && rop != token.LSS:
 				s.why = "the candidate is accepted on the wrong side of the test: " + site.text
@@ -313,111 +362,74 @@ func samplingRules(c *Ctx) {
 	}
 	// proposers per slot: SLOTS_PER_EPOCH entries, entry i from the seed of slot start+i (the seed formula itself is
 	// formula.spec's common.ComputeProposers call:PutUint64#1)
-	pk4, f4top := c.P.mustFunc("eth2/beacon/common", "ComputeProposers")
+	pk4, f4 := c.P.mustFunc("eth2/beacon/common", "ComputeProposers")
 	info4 := pk4.TypesInfo
-	// the per-slot loop may live in an unexported helper of the package (two levels)
-	cands := []*ast.FuncDecl{f4top}
-	for round := 0; round < 2; round++ {
-		for _, cf := range append([]*ast.FuncDecl{}, cands...) {
-			ast.Inspect(cf.Body, func(n ast.Node) bool {
-				if call, ok := n.(*ast.CallExpr); ok {
-					if f := calleeFunc(info4, call); f != nil && !f.Exported() && f.Pkg() == pk4.Types {
-						c.P.funcDecls(func(p2 *packages.Package, f2 *ast.FuncDecl) {
-							if p2 == pk4 && f2.Body != nil && p2.TypesInfo.Defs[f2.Name] == f {
-								dup := false
-								for _, e := range cands {
-									if e == f2 {
-										dup = true
-									}
-								}
-								if !dup {
-									cands = append(cands, f2)
-								}
+	// the call of ComputeProposerIndex, here or in a helper; the loop around it in its frame; how many rounds that loop
+	// makes, read through locals and the helper's parameters; and where the result is stored
+	top4 := newInlEnv(info4, f4.Body, nil, nil, nil, nil)
+	var site *inlSite
+	{
+		seq := 0
+		walkInlined(c.P, pk4, top4, 0, map[*ast.BlockStmt]bool{}, &seq, func(st inlSite) {
+			if st.f.Name() == "ComputeProposerIndex" && site == nil {
+				s := st
+				site = &s
+			}
+		})
+	}
+	var loopVar types.Object
+	bound := ""
+	stored := false
+	if site != nil {
+		fr := site.env
+		var loopBody *ast.BlockStmt
+		for q := fr.parents[ast.Node(site.call)]; q != nil && loopVar == nil; q = fr.parents[q] {
+			switch l := q.(type) {
+			case *ast.ForStmt:
+				if be, ok := ast.Unparen(l.Cond).(*ast.BinaryExpr); ok && countingLoop(fr.info, fr.parents, be) {
+					cnt, lim := be.X, be.Y
+					if be.Op == token.GTR {
+						cnt, lim = be.Y, be.X
+					}
+					if p, ok := fr.poly(lim); ok {
+						bound = p.String()
+						loopVar = fr.info.ObjectOf(ast.Unparen(cnt).(*ast.Ident))
+						loopBody = l.Body
+					}
+				}
+			case *ast.RangeStmt:
+				if id, ok := l.Key.(*ast.Ident); ok && id.Name != "_" {
+					// for i := range proposers, proposers := make([]T, SLOTS_PER_EPOCH) (possibly a helper's parameter)
+					x, xfr := fr.resolve(l.X)
+					if mk, ok := x.(*ast.CallExpr); ok && len(mk.Args) >= 2 {
+						if fid, ok := mk.Fun.(*ast.Ident); ok && fid.Name == "make" {
+							if p, ok := xfr.poly(mk.Args[1]); ok {
+								bound = p.String()
+								loopVar = fr.info.ObjectOf(id)
+								loopBody = l.Body
 							}
-						})
+						}
+					}
+				}
+			}
+		}
+		if loopBody != nil {
+			ast.Inspect(loopBody, func(n ast.Node) bool {
+				as, ok := n.(*ast.AssignStmt)
+				if !ok {
+					return true
+				}
+				for _, l := range as.Lhs {
+					if ix, ok := ast.Unparen(l).(*ast.IndexExpr); ok {
+						if id, ok := ast.Unparen(stripConv(fr.info, ix.Index)).(*ast.Ident); ok && fr.info.ObjectOf(id) == loopVar {
+							stored = true
+						}
 					}
 				}
 				return true
 			})
 		}
 	}
-	f4 := f4top
-	for _, cf := range cands {
-		hasLoop := false
-		ast.Inspect(cf.Body, func(n ast.Node) bool {
-			if l, ok := n.(*ast.ForStmt); ok {
-				ast.Inspect(l.Body, func(m ast.Node) bool {
-					if cl, ok := m.(*ast.CallExpr); ok {
-						if f := calleeFunc(info4, cl); f != nil && f.Name() == "ComputeProposerIndex" {
-							hasLoop = true
-						}
-					}
-					return true
-				})
-			}
-			if l, ok := n.(*ast.RangeStmt); ok {
-				ast.Inspect(l.Body, func(m ast.Node) bool {
-					if cl, ok := m.(*ast.CallExpr); ok {
-						if f := calleeFunc(info4, cl); f != nil && f.Name() == "ComputeProposerIndex" {
-							hasLoop = true
-						}
-					}
-					return true
-				})
-			}
-			return true
-		})
-		if hasLoop {
-			f4 = cf
-		}
-	}
-	defs4 := singleDefs(info4, f4.Body)
-	parents4 := parentMap(f4.Body)
-	var loopVar types.Object
-	bound := ""
-	ast.Inspect(f4.Body, func(n ast.Node) bool {
-		switch l := n.(type) {
-		case *ast.ForStmt:
-			if be, ok := l.Cond.(*ast.BinaryExpr); ok && countingLoop(info4, parents4, be) {
-				if p, ok := exprPoly(info4, be.Y, defs4, nil, 0); ok && loopVar == nil {
-					bound = p.String()
-					loopVar = info4.ObjectOf(ast.Unparen(be.X).(*ast.Ident))
-				}
-			}
-		case *ast.RangeStmt:
-			if id, ok := l.Key.(*ast.Ident); ok && loopVar == nil {
-				// for i := range proposers, proposers := make([]T, SLOTS_PER_EPOCH)
-				if xid, ok := ast.Unparen(l.X).(*ast.Ident); ok {
-					if d, ok := defs4[info4.ObjectOf(xid)]; ok && d.rhs != nil {
-						if mk, ok := ast.Unparen(d.rhs).(*ast.CallExpr); ok && len(mk.Args) >= 2 {
-							if fid, ok := mk.Fun.(*ast.Ident); ok && fid.Name == "make" {
-								if p, ok := exprPoly(info4, mk.Args[1], defs4, nil, 0); ok {
-									bound = p.String()
-									loopVar = info4.ObjectOf(id)
-								}
-							}
-						}
-					}
-				}
-			}
-		}
-		return true
-	})
-	stored := false
-	ast.Inspect(f4.Body, func(n ast.Node) bool {
-		as, ok := n.(*ast.AssignStmt)
-		if !ok {
-			return true
-		}
-		for _, l := range as.Lhs {
-			if ix, ok := ast.Unparen(l).(*ast.IndexExpr); ok {
-				if id, ok := ast.Unparen(ix.Index).(*ast.Ident); ok && loopVar != nil && info4.ObjectOf(id) == loopVar {
-					stored = true
-				}
-			}
-		}
-		return true
-	})
 	switch {
 	case loopVar == nil:
 		c.unm("ComputeProposers.slots", f4.Pos(), "per-slot proposer loop written in an unrecognised form")
